@@ -16,7 +16,7 @@ VARIABLE l
 Rej(r, what) == PrintT("REJECT " \o ToJson(<<"C13", r.id, what,
                         [role |-> r.scenario.role, cause |-> r.scenario.cause, phase |-> r.scenario.phase,
                          inIn |-> r.scenario.inIn, inOut |-> r.scenario.inOut, buf |-> r.scenario.buf,
-                         slowCb |-> r.scenario.slowCb, blockCb |-> r.scenario.blockCb, partial |-> r.scenario.partial, cause2 |-> r.scenario.cause2, leaked |-> r.leaked]>>)) /\ FALSE
+                         slowCb |-> r.scenario.slowCb, blockCb |-> r.scenario.blockCb, errStop |-> r.scenario.errStop, partial |-> r.scenario.partial, cause2 |-> r.scenario.cause2, leaked |-> r.leaked]>>)) /\ FALSE
 
 \* causes initiated by the remote side or the transport: the local application must be told
 RemoteCauses == {"peer_close", "peer_reset", "read_timeout", "write_error", "peer_stops_reading", "timer_disconnect"}
